@@ -25,9 +25,11 @@ PROP = {
                   "images lose whatever was appended after the last terminate); (2) WriterStack.v - the ORDER of the durability primitives of the real directory "
                   "(FooterProxy / BufWriter / SafeFileWriter terminate, MmapDirectory::atomic_write) is regenerated from the source by tools/pin.py and proved to make payload+footer "
                   "durable (C01_terminate_makes_everything_durable) and the replace atomic at every crash point, for both fates of the rename and every amount of un-synced data "
-                  "(C01_atomic_write_is_atomic, C01_disciplined_replace_is_atomic); the two wrong orders are refuted by witnesses and explored exhaustively on the model by the harness. Partial: resumability "
-                  "(a recovered image re-establishes the protocol invariant) is observed on the implementation, not proved; the protocol trace is not compared "
-                  "event-by-event with observed traces (observed traces go through the monitor).",
+                  "(C01_atomic_write_is_atomic, C01_disciplined_replace_is_atomic); the two wrong orders are refuted by witnesses and explored exhaustively on the model by the harness. Restarts: C01_crash_safe_across_restarts proves the guarantee for every state reachable "
+                  "through ANY number of crash / recover rounds interleaved with disciplined operation, and C01_recovered_process_crash_safe for a process started on a crash image; tie: the "
+                  "storage log of the recovery runs (Index::open, reader, new writer, commit, collection on a materialised image) goes through `monitor_from (from_image ..)` in Coq. "
+                  "Partial: that the PROTOCOL model re-establishes its own invariant after a restart is not proved (the recovery runs are observed through the monitor instead); the protocol "
+                  "trace is not compared event-by-event with observed traces (observed traces go through the monitor).",
     "level_note": "Trusted: Coq kernel + vm_compute; the VerifDirectory log faithfully records the operations tantivy issues through the Directory trait; the "
                   "persistence model itself (POSIX-like: un-synced directory operations independently lost or kept, fsynced data intact) and that the OS honours "
                   "fsync/rename as modelled; meta.json (de)serialisation (the harness parses the referenced files out of the JSON and cross-checks them against "
